@@ -101,7 +101,7 @@ impl Parser {
 
         let key_type = Self::r#type(key_node)?;
 
-        if key_type.is_map() {
+        if key_type.contains_map() {
             return Err(new_err(
                 key_span,
                 &input.user_data().get_source_file_name(),
